@@ -9,8 +9,11 @@ import Knut.Driver.C12
 import Knut.Driver.C10
 import Knut.Driver.C04
 import Knut.Driver.Balance
+import Knut.Driver.Load
 import Knut.Driver.C17
 import Knut.Driver.C16
+import Knut.Driver.C13
+import Knut.Driver.C14
 /-! Line-protocol driver over the executable model: one request per line (`op field*`), one answer line.
 Each property contributes a handler module `Knut/Driver/<X>.lean`; add it to `handlers`. -/
 open Knut Knut.Wire
@@ -20,6 +23,8 @@ def handlers : List (List String → Option String) := [
   Knut.Driver.C18.handle,
   Knut.Driver.C17.handle,
   Knut.Driver.C16.handle,
+  Knut.Driver.C13.handle,
+  Knut.Driver.C14.handle,
   Knut.Driver.C11.handle,
   Knut.Driver.C15.handle,
   Knut.Driver.C07.handle,
@@ -28,7 +33,8 @@ def handlers : List (List String → Option String) := [
   Knut.Driver.C10.handle,
   Knut.Driver.Dec.handle,
   Knut.Driver.C04.handle,
-  Knut.Driver.Balance.handle
+  Knut.Driver.Balance.handle,
+  Knut.Driver.Load.handle
 ]
 
 def handle (fields : List String) : String :=
